@@ -55,7 +55,9 @@ func init() {
 		ruleM3(c, "C02.B13")        // sizes up to the advertised maximum are accepted, larger ones refused
 		ruleS2(c, "C02.B14")        // removed or replaced objects disappear: unlink follows the removal of the name
 		ruleP11(c, "C02.B15")       // the listing built is the listing returned
-		ruleW1(c, "C02.B16")        // what a request changed in the cached inode is logged: sizes and contents survive a restart
+		ruleW1(c, "C02.B16")
+		ruleB17(c, "C02.B17")
+		ruleB18(c, "C02.B18")        // what a request changed in the cached inode is logged: sizes and contents survive a restart
 	}
 }
 
@@ -1408,4 +1410,200 @@ func sameAdd(a, b ssa.Value) bool {
 	}
 	ax, ay, bx, by := rv(x.X), rv(x.Y), rv(y.X), rv(y.Y)
 	return (ax == bx && ay == by) || (ax == by && ay == bx)
+}
+
+// ---------------------------------------------------------------- B17, B18
+
+// ruleB17: RMDIR removes directories only.  RMDIR and REMOVE share one
+// routine; what makes RMDIR refuse a regular file or a symbolic link is the
+// flag it hands down.  Decided on the paths: with the arguments of RMDIR's own
+// call substituted, every path to the removal of the name takes the edge on
+// which the object's kind is NF3DIR.
+func ruleB17(c *Ctx, id string) {
+	V, P, R := c.V, c.P, c.R
+	R.Rule(id, "RMDIR removes only directories: in RMDIR's code (the shared routine read with the arguments RMDIR passes), every path to dir.RemName takes the edge 'Kind == NF3DIR' of an inode other than the directory searched", 1)
+	rmdir := c.fn(id, "nfs.(*Nfs).NFSPROC3_RMDIR")
+	rem := c.fn(id, "dir.RemName")
+	if rmdir == nil || rem == nil {
+		return
+	}
+	dirK := constOfPkg(P, "nfstypes", "NF3DIR")
+	n := 0
+	for _, sc := range scopesOf(rmdir) {
+		sc := sc
+		for _, ci := range P.CallsIn(sc.Fn, funcIs(rem)) {
+			n++
+			R.Analysed[FuncName(sc.Fn)] = true
+			as := fullArgs(ci)
+			dipArg := stripConv(as[0])
+			type edge struct{ from, to *ssa.BasicBlock }
+			blocked := map[edge]bool{}
+			for _, br := range branches(sc.Fn) {
+				if br.Cond.Op == token.ILLEGAL {
+					if bv, isb := constBool(sc.S.resolve(stripConv(br.Cond.X))); isb {
+						if bv {
+							blocked[edge{br.Block, br.False}] = true
+						} else {
+							blocked[edge{br.Block, br.True}] = true
+						}
+					}
+					continue
+				}
+				if br.Cond.Y == nil {
+					continue
+				}
+				nm, fl, base, _ := loadedField(br.Cond.X)
+				k, isk := constInt(stripConv(br.Cond.Y))
+				if nm != V.Inode || fl != "Kind" || !isk || k != dirK || stripConv(base) == dipArg {
+					continue
+				}
+				switch br.Cond.Op {
+				case token.EQL:
+					blocked[edge{br.Block, br.True}] = true
+				case token.NEQ:
+					blocked[edge{br.Block, br.False}] = true
+				}
+			}
+			seen := map[*ssa.BasicBlock]bool{}
+			work := []*ssa.BasicBlock{sc.Fn.Blocks[0]}
+			for len(work) > 0 {
+				b := work[len(work)-1]
+				work = work[:len(work)-1]
+				if seen[b] {
+					continue
+				}
+				seen[b] = true
+				for _, s := range b.Succs {
+					if !blocked[edge{b, s}] || (len(b.Succs) == 2 && b.Succs[0] == b.Succs[1]) {
+						work = append(work, s)
+					}
+				}
+			}
+			R.Check(!seen[ci.Block()], id, "NFSPROC3_RMDIR|the name is removed only for a directory", P.Pos(ci.Pos()), "with RMDIR's arguments, dir.RemName is reached only through the edge on which the object is a directory", "every path takes Kind == NF3DIR", "a path reaches the removal without the directory test (the flag RMDIR hands down does not arm it): RMDIR of a regular file or symbolic link unlinks it and answers OK")
+		}
+	}
+	R.Check(n > 0, id, "NFSPROC3_RMDIR|removes a name", P.Pos(rmdir.Pos()), "RMDIR reaches dir.RemName in its own code", fmt.Sprintf("%d sites", n), "no dir.RemName found in RMDIR's code")
+}
+
+var inodeMutMemo = map[*ssa.Function]int{}
+
+// mutatesInode: f (or a go-nfsd function it calls) stores into a field of an
+// inode or writes its content.
+func mutatesInode(c *Ctx, f *ssa.Function, d int) bool {
+	if f == nil {
+		return false
+	}
+	if f == c.V.InodeWrite || f == c.V.WriteInode || f == c.V.Resize {
+		return true
+	}
+	if !IsRepoFunc(f) || f.Blocks == nil || d > 6 {
+		return false
+	}
+	if v, ok := inodeMutMemo[f]; ok {
+		return v == 1
+	}
+	inodeMutMemo[f] = 2
+	res := false
+	for _, w := range FieldWrites(f) {
+		if w.Type == c.V.Inode {
+			res = true
+		}
+	}
+	if !res {
+		for _, b := range f.Blocks {
+			for _, in := range b.Instrs {
+				if cal := staticCallee(in); cal != nil && cal != f && mutatesInode(c, cal, d+1) {
+					res = true
+				}
+			}
+		}
+	}
+	if res {
+		inodeMutMemo[f] = 1
+	}
+	return res
+}
+
+// ruleB18: the attributes a reply carries describe the object as the request
+// leaves it.  A snapshot taken before the request's last change of the inode
+// (MKDIR's "." and "..", the target of a SYMLINK) reports an older size than
+// the very next GETATTR.
+func ruleB18(c *Ctx, id string) {
+	V, P, R := c.V, c.P, c.R
+	R.Rule(id, "reply attributes are taken after the request's last change of the object: in the handlers, nothing that can execute after x.MkFattr() stores into x or hands x to a function that changes an inode", 6)
+	if V.MkFattr == nil {
+		return
+	}
+	n := 0
+	per := map[string]int{}
+	for _, fn := range P.RepoFuncs("nfs") {
+		if fn.Blocks == nil {
+			continue
+		}
+		for _, mk := range P.CallsIn(fn, funcIs(V.MkFattr)) {
+			x := stripConv(recvOf(mk))
+			if x == nil {
+				continue
+			}
+			n++
+			R.Analysed[FuncName(fn)] = true
+			def, _ := x.(ssa.Instruction)
+			var late ssa.Instruction
+			seen := map[*ssa.BasicBlock]bool{}
+			changes := func(in ssa.Instruction) bool {
+				switch y := in.(type) {
+				case *ssa.Store:
+					if nm, _, base := FieldOf(y.Addr); nm == V.Inode && stripConv(base) == x {
+						return true
+					}
+				case *ssa.Call:
+					cal := staticCallee(y)
+					if cal == nil || !mutatesInode(c, cal, 0) {
+						return false
+					}
+					for _, a := range fullArgs(y) {
+						if stripConv(a) == x {
+							return true
+						}
+					}
+				}
+				return false
+			}
+			var scan func(b *ssa.BasicBlock, from int)
+			scan = func(b *ssa.BasicBlock, from int) {
+				for i := from; i < len(b.Instrs); i++ {
+					in := b.Instrs[i]
+					if in == def {
+						return
+					}
+					if late == nil && changes(in) {
+						late = in
+					}
+				}
+				for _, s := range b.Succs {
+					if !seen[s] {
+						seen[s] = true
+						scan(s, 0)
+					}
+				}
+			}
+			for i, in := range mk.Block().Instrs {
+				if in == mk {
+					scan(mk.Block(), i+1)
+				}
+			}
+			base := FuncName(ownerOf(fn)) + "|attributes taken after the last change"
+			per[base]++
+			key := base
+			if per[base] > 1 {
+				key = fmt.Sprintf("%s#%d", base, per[base])
+			}
+			why := ""
+			if late != nil {
+				why = "the inode is changed at " + P.Pos(late.Pos()) + " after its attributes were taken for the reply"
+			}
+			R.Check(late == nil, id, key, P.Pos(mk.Pos()), "nothing changes the inode between the snapshot of its attributes and the end of the function", "no later change", why+": the reply reports a size (and times) older than what the request committed - the client caches attributes that the next GETATTR contradicts")
+		}
+	}
+	R.Check(n >= 6, id, "inventory|attribute snapshots", "?", "the MkFattr calls of the handlers are found", fmt.Sprintf("%d sites", n), fmt.Sprintf("only %d MkFattr sites found", n))
 }
